@@ -635,7 +635,7 @@ func genSweep(g *tr.G) {
 }
 
 func main() {
-	tr.Main("C02: histories that stress depth (sorted, reverse, two zig-zags, block and random insertion orders, each alone and followed by ascending/descending/random/alternating removals down to empty or to a fraction, then regrowth) at every β in {0,1,250,500,999}; New from every n up to a bound (with duplicates) and from large n, followed by adversarial growth, Clone and Clear; phase-structured random histories at random β<1000; every insertion order of up to 5 (quick) / 7 (thorough) keys and every string of up to 4/5 Add/Remove ops over 4 keys. After every op the height is measured through Root/Left/Right cursors and compared with the model; Get probes count comparator calls. Scale stream (B lines, macro operations over arithmetic key sequences): trees of 2^k-1, 2^k, 2^k+1 keys for k = 3..12 and random sizes up to 8192 at beta in {0,1,50,155,250,500,800,880,950,999,1000} in rotation, grown by Add or Replace in ascending/descending/outside-in/inside-out/random order or built by New from sorted/unsorted/duplicated keys, drained to 1/2..1/16 by Remove (the peak stays), regrown adversarially, drained to empty by Remove (the peak restarts), regrown; Clone then divergent edits (the drained side regrown adversarially); after EVERY call: result, Len, the height (one pass over the node pointers by a hook), the comparisons of Get(key just used) and of Get(deepest key); about nine checkpoints per macro give, for every live tree, the height measured through Root/Left/Right/Up cursors and a digest of the shape. Sweep: the float depth limit VerifHeightLimit(β,n) for every n<=4096 (β stride 7 quick / all β thorough, limit values capped for the bignum arithmetic), windows up to 2^20 (thorough) and 2^e-1,2^e,2^e+1 up to e=46. A history is non-trivial when it has at least 8 ops; distinct = distinct input lines.",
+	tr.Main("C02: histories that stress depth (sorted, reverse, two zig-zags, block and random insertion orders, each alone and followed by ascending/descending/random/alternating removals down to empty or to a fraction, then regrowth) at every β in {0,1,250,500,999}; New from every n up to a bound (with duplicates) and from large n, followed by adversarial growth, Clone and Clear; phase-structured random histories at random β<1000; every insertion order of up to 5 (quick) / 7 (thorough) keys and every string of up to 4/5 Add/Remove ops over 4 keys. After every op the height is measured through Root/Left/Right cursors and compared with the model; Get probes count comparator calls. Scale stream (B lines, macro operations over arithmetic key sequences): trees of 2^k-1, 2^k, 2^k+1 keys for k = 3..12 and random sizes up to 8192 at beta in {0,1,50,155,250,500,800,880,950,999,1000} in rotation, grown by Add or Replace in ascending/descending/outside-in/inside-out/random order or built by New from sorted/unsorted/duplicated keys, drained to 1/2..1/16 by Remove (the peak stays), regrown adversarially, drained to empty by Remove (the peak restarts), regrown; Clone then divergent edits (the drained side regrown adversarially); after EVERY call: result, Len, the height (one pass over the node pointers by a hook), the comparisons of Get(key just used) and of Get(deepest key); about nine checkpoints per macro give, for every live tree, the height measured through Root/Left/Right/Up cursors and a digest of the shape. Round 7: a Clone taken from inside an Inorder/InorderAfter callback of the tree (at the first, middle, last key; loop continued or left; nested traversals), replayed by the model as a plain Clone, followed by runs of new maxima/minima on the clone, the original and a clone of the clone; three-phase histories (drain one end down to the root, drain the other end until the delete-side rebuild fires, at once 40 new extreme keys at the first end, then mirrored) for N in 24..4095 (8191) at beta in {300,500,700,900} and eight others, and random-order drains to the rebuild followed at once by a run at an end. Sweep: the float depth limit VerifHeightLimit(β,n) for every n<=4096 (β stride 7 quick / all β thorough, limit values capped for the bignum arithmetic), windows up to 2^20 (thorough) and 2^e-1,2^e,2^e+1 up to e=46. A history is non-trivial when it has at least 8 ops; distinct = distinct input lines.",
 		exec, func(g *tr.G) {
 			if g.Prop != "C02" {
 				return
